@@ -29,6 +29,7 @@ type psEvent struct {
 	Pos   token.Pos
 	Async int // >0 inside an executor closure
 	In    string
+	Res   string // result symbol of an opaque call
 }
 
 func (e psEvent) String() string {
